@@ -24,7 +24,7 @@ ValOf(code) ==
     [] code = "s" -> [null |-> FALSE, s |-> "x"]
     [] code = "o" -> [null |-> FALSE, id |-> "7", otype |-> "zz_a"]
     [] code = "n" -> [id |-> "9"]
-    [] code = "a" -> [vals |-> <<"1", "2">>]
+    [] code = "a" -> [vals |-> <<"1", "2">>, extra |-> 3]
 Canon(sig) == LET cs == ArgCodes(sig) IN
   [name |-> "m", sig |-> sig, types |-> [i \in 1..Len(cs) |-> IF cs[i] \in {"o", "n"} THEN "zz_a" ELSE ""],
    sender |-> "3", kind |-> 1, ttype |-> "zz_t", args |-> [i \in 1..Len(cs) |-> ValOf(cs[i])]]
